@@ -23,7 +23,7 @@ CHECKS = {
          "Every shape with trailing-zero cohorts at every exponent and sign through String/MarshalText/%v/Format/Append(-1), digit-pair sweep of the extractor, zeros at every exponent, specials; text must equal the reference layout and parse back to the same value and sign.",
          "Reference layout = strconv shortest layout on exact digits (bound to the toolchain in C07)."),
  "C07": ("model_checking", "conformance with a reference formatter model over the product value x verb x precision x width x flag subsets; model validated against the installed fmt/strconv on float64-exact values every run",
-         "Reference formatter (exact digits, half-even rounding, strconv layout, fmt flags) compared with fmt.Sprintf, Decimal.Append, Format and Append on every value/spec combination and flag sequences; the model itself must reproduce the toolchain's output for every float64-exact value and spec first.",
+         "Reference formatter (exact digits, half-even rounding, strconv layout, fmt flags) compared with fmt.Sprintf, Decimal.Append (nil and caller-supplied buffers: empty with capacity 1, a prefix in a tight and in a roomy buffer), Format and Append on every value/spec combination and flag sequences; the model itself must reproduce the toolchain's output for every float64-exact value and spec first.",
          "Configuration = installed Go toolchain; values are a shape alphabet."),
  "C13": ("model_checking", "conformance with the RFC 8259 number grammar: all byte strings up to length N over a JSON-ish alphabet, structured numbers, and MarshalJSON over cohorts x exponents with exact value check",
          "MarshalJSON output validated by three recognisers, exact value/sign, no superfluous digits, round trips directly and through encoding/json containers; UnmarshalJSON judged on every string up to the bound and on structured numbers against Parse; null and non-number documents.",
@@ -32,13 +32,13 @@ CHECKS = {
          "Every pair of operand classes for every binary operation and mode, every class for every unary operation; class and sign from Go's float64 operation, bit-exact NaN propagation, payload text of invalid operations, predicate consistency on every top-bit pattern.",
          "Finite representatives are moderate so float64 and decimal agree on result classes; Min/Max decided by C04."),
  "C16": ("exploration", "bounded-exhaustive argument alphabet x 8 functions against a two-precision math/big.Float oracle (enclosure verdicts)",
-         "Arguments over the whole exponent range, neighbours of 1, every two-digit leading pair, all exact cases, overflow/underflow thresholds to a few ulps, the int16 exponent-wrap region; accepted only if within one ulp over the whole enclosure, rejected only if beyond it over the whole enclosure; exact cases must be exact.",
-         "Numerical oracle (320/512-bit evaluation, 2^-280 guard) bound to the repository's simple.txt vectors; default rounding mode only. Known findings: Expm1 for small negative arguments and Expm1(-0), Log1p for |x| < 1e-3276 (the repository's own edge vectors pin those results, so they cannot be repaired with the suite unedited)."),
+         "Arguments over the whole exponent range, neighbours of 1, every two-digit leading pair, all exact cases, overflow/underflow thresholds to a few ulps, the int16 exponent-wrap region, binary-limit digit prefixes at every decimal magnitude, word-structured and digit-reversed coefficients; accepted only if within one ulp over the whole enclosure, rejected only if beyond it over the whole enclosure; exact cases must be exact.",
+         "Numerical oracle (320/512-bit evaluation, 2^-280 guard) bound to the repository's simple.txt vectors; exactness and range-end conventions judged under the default mode, the one-ulp bound also under one other DefaultRoundingMode per argument (with a 1e-20 ulp slack there). Known findings: Expm1 for small negative arguments and Expm1(-0), Log1p for |x| < 1e-3276 (the repository's own edge vectors pin those results, so they cannot be repaired with the suite unedited)."),
  "C17": ("exploration", "bounded-exhaustive enumeration decided exactly in big integers ((r -/+ (1/2+1e-20)u)^k against |d|)",
          "Shapes x every exponent (subset) and exponent windows (all), perfect squares/cubes and their neighbours, all leading-digit prefixes, both functions and signs; the property's own integer criterion is evaluated exactly; perfect powers must give exact roots.",
          "No numerical approximation is involved."),
  "C18": ("exploration", "bounded-exhaustive ladder x base/exponent product against exact shortcut rules and a two-precision big.Float oracle with the property's tolerance formula",
-         "Every shortcut case (y in 0, +-1, +-0.5 cohorts, integers, powers of ten for every k, negative bases) must be exact; general pairs incl. bases near 1, every leading pair, exponents landing at the thresholds to a few ulps, all six modes; Pow == PowWithMode under every default mode.",
+         "Every shortcut case (y in 0, +-1, +-0.5 cohorts, integers in every encoding k*10^e, powers of ten for every k, negative bases) must be exact; word-structured bases/exponents and powers of two and five as bases; general pairs incl. bases near 1, every leading pair, exponents landing at the thresholds to a few ulps, all six modes; Pow == PowWithMode under every default mode.",
          "Beyond the range both Inf/zero and the mode-rounded extreme are accepted; oracle bound to the repository's Pow vectors (simple.txt)."),
  "C20": ("model_checking", "stateless exploration of all thread interleavings (preemption-bounded DFS under a hand-written cooperative scheduler on an AST-instrumented overlay build of the current sources) + exhaustive totality/purity enumeration + supplementary free-running -race pass",
          "Totality and purity over every exported entry point with extreme arguments, fault-injecting fmt.State/ScanState stubs and a generated snapshot of all package-level variables; all interleavings of 2-3 threads x 2 operations for every pair of a 19-entry operation menu on shared operands up to the preemption bound, results compared with sequential execution; recorded schedules are replayed for determinism.",
